@@ -76,6 +76,11 @@ pub fn child_main(json: &str) {
             St::None(_) => panic!("no sources"),
         };
         match op.mode.as_str() {
+            // reference run in the child's own environment (formatter reachable or not): print compile_to_string()
+            "to-string" => c.compile_to_string().map(|r| {
+                print!("{}", r.generated);
+                r.warnings
+            }),
             "stdout" => c.set_output_mode(OutputMode::Stdout).compile(),
             "none" => c.set_output_mode(OutputMode::NoOutput).compile(),
             #[allow(deprecated)]
@@ -370,6 +375,17 @@ impl Prop for C20 {
                 }
             }
         }
+        // formatter reachable: compile() must deliver what compile_to_string() returns in the same environment
+        for backend in ["rasn", "ts"] {
+            for input in ["ok", "warn"] {
+                for mode in ["file", "dir", "stdout", "deprecated"] {
+                    out.push(Case { steps: vec![Step { input: input.into(), source: "path".into() }], mode: mode.into(), dest: "absent".into(), backend: backend.into(), via: "lib-fmt".into() });
+                }
+                for mode in ["file", "dir", "stdout", "cli-default"] {
+                    out.push(Case { steps: vec![Step { input: input.into(), source: "cli-m".into() }], mode: mode.into(), dest: "absent".into(), backend: backend.into(), via: "cli-fmt".into() });
+                }
+            }
+        }
         for (name, _, _) in MACRO_INPUTS.iter() {
             out.push(Case { steps: vec![Step { input: name.to_string(), source: "macro".into() }], mode: "none".into(), dest: "absent".into(), backend: "rasn".into(), via: "macro".into() });
         }
@@ -411,6 +427,12 @@ impl Prop for C20 {
         std::fs::create_dir_all(&outd).unwrap();
         let kb = format!("deliver|input={}|source={}|mode={}|dest={}|backend={}|via={}", c.steps.iter().map(|s| s.input.clone()).collect::<Vec<_>>().join(">"), c.steps[0].source, c.mode, c.dest, c.backend, c.via);
         let mut discs: Vec<Disc> = vec![];
+        // "-fmt" variants: the same operations with a code formatter reachable the way the library looks for it
+        let fmt_env = c.via.ends_with("-fmt");
+        let cargo_home = std::env::var("VERIF_RUSTFMT_HOME").unwrap_or_else(|_| format!("{}/.cargo", std::env::var("HOME").unwrap_or_else(|_| "/root".into())));
+        if fmt_env && !Path::new(&format!("{cargo_home}/bin/rustfmt")).exists() {
+            return CaseResult::skip("rustfmt-not-available");
+        }
         // destination
         let target_file: PathBuf; // where the bindings must end up on success
         let out_arg: PathBuf; // what is handed to the API / CLI
@@ -474,15 +496,24 @@ impl Prop for C20 {
             // reference text
             let lits: Vec<String> = texts.iter().map(|t| t.to_string()).collect();
             let reference = if c.backend == "ts" { compile_ts(&lits) } else { compile_rasn(&lits, &Cfg::default()) };
-            let (exp_text, exp_ok) = match (&reference, step.input.as_str()) {
+            let (mut exp_text, exp_ok) = match (&reference, step.input.as_str()) {
                 (_, "unreadable") => (String::new(), false),
                 (Outcome::Ok { generated, .. }, _) => (generated.clone(), true),
                 _ => (String::new(), false),
             };
+            if fmt_env && exp_ok {
+                // with a formatter reachable the reference is what compile_to_string() returns in that very environment
+                let rop = Op { literals: lits.clone(), paths: vec![], iter_paths: vec![], mode: "to-string".into(), out: String::new(), backend: c.backend.clone() };
+                let exe = std::env::current_exe().unwrap();
+                match Command::new(exe).arg("c20op").arg(serde_json::to_string(&rop).unwrap()).env("CARGO_HOME", &cargo_home).current_dir(&inp).stdin(Stdio::null()).output() {
+                    Ok(o) if String::from_utf8_lossy(&o.stderr).lines().any(|l| l.starts_with("RESULT ok")) => exp_text = String::from_utf8_lossy(&o.stdout).to_string(),
+                    other => return CaseResult { discs: vec![Disc::new("deliver|machinery".to_string(), format!("reference child failed: {other:?}"))], nontrivial: false, outcome: "spawn".into(), skipped: None },
+                }
+            }
             let before = snapshot(&outd);
             // run
             let (status_ok, stdout, result_line, panicked): (bool, Vec<u8>, String, bool);
-            if c.via == "lib" {
+            if c.via.starts_with("lib") {
                 let mut op = Op { literals: vec![], paths: vec![], iter_paths: vec![], mode: c.mode.clone(), out: out_arg.to_string_lossy().to_string(), backend: c.backend.clone() };
                 match step.source.as_str() {
                     "literal" => op.literals = lits.clone(),
@@ -494,7 +525,12 @@ impl Prop for C20 {
                     }
                 }
                 let exe = std::env::current_exe().unwrap();
-                let o = Command::new(exe).arg("c20op").arg(serde_json::to_string(&op).unwrap()).current_dir(&outd).stdin(Stdio::null()).output();
+                let mut ch = Command::new(exe);
+                ch.arg("c20op").arg(serde_json::to_string(&op).unwrap()).current_dir(&outd).stdin(Stdio::null());
+                if fmt_env {
+                    ch.env("CARGO_HOME", &cargo_home);
+                }
+                let o = ch.output();
                 match o {
                     Ok(o) => {
                         let err = String::from_utf8_lossy(&o.stderr).to_string();
@@ -509,6 +545,9 @@ impl Prop for C20 {
             } else {
                 let mut cmd = Command::new(cli_bin());
                 cmd.current_dir(&outd).stdin(Stdio::null());
+                if fmt_env {
+                    cmd.env("CARGO_HOME", &cargo_home);
+                }
                 if step.source == "cli-d" && step.input != "unreadable" {
                     cmd.arg("-d").arg(sdir.join("dir"));
                 } else if step.source == "cli-d" {
@@ -560,7 +599,7 @@ impl Prop for C20 {
             if status_ok != should_succeed {
                 discs.push(Disc::new(format!("{kb}|kind=status|exp={should_succeed}|got={status_ok}"), ctx.clone()));
             }
-            if exp_ok && unwritable && c.via == "lib" && !result_line.contains("Generator:IO") {
+            if exp_ok && unwritable && c.via.starts_with("lib") && !result_line.contains("Generator:IO") {
                 discs.push(Disc::new(format!("{kb}|kind=error-kind"), format!("unwritable destination must be reported as Err(Generator(IO))\n{ctx}")));
             }
             let writes_file = matches!(c.mode.as_str(), "file" | "dir" | "deprecated" | "cli-default" | "file-noext" | "dir-dotted");
